@@ -13,24 +13,32 @@ func UnmarshalSelectionSet(b []byte) (SelectionSet, error) {
 
 	result := make([]Selection, 0)
 	for _, item := range tmp {
-		var field Field
-		if err := json.Unmarshal(item, &field); err == nil {
-			result = append(result, &field)
-			continue
+		// every selection kind encodes to an object; tell them apart by a key only that kind has
+		var keys map[string]json.RawMessage
+		if err := json.Unmarshal(item, &keys); err != nil {
+			return nil, err
 		}
-		var fragmentSpread FragmentSpread
-		if err := json.Unmarshal(item, &fragmentSpread); err == nil {
-			result = append(result, &fragmentSpread)
-			continue
+		var selection Selection
+		switch {
+		case hasKey(keys, "Alias"):
+			selection = &Field{}
+		case hasKey(keys, "TypeCondition"):
+			selection = &InlineFragment{}
+		default:
+			selection = &FragmentSpread{}
 		}
-		var inlineFragment InlineFragment
-		if err := json.Unmarshal(item, &inlineFragment); err == nil {
-			result = append(result, &inlineFragment)
-			continue
+		if err := json.Unmarshal(item, selection); err != nil {
+			return nil, err
 		}
+		result = append(result, selection)
 	}
 
 	return result, nil
+}
+
+func hasKey(keys map[string]json.RawMessage, key string) bool {
+	_, ok := keys[key]
+	return ok
 }
 
 func (f *FragmentDefinition) UnmarshalJSON(b []byte) error {
